@@ -238,6 +238,7 @@ type vpKV struct {
 	cutLat    time.Duration
 	latResp   time.Duration // bound of the response leg (0 = immediate)
 	ackYield  bool
+	hangIsTimeout bool // an unanswered request fails after the client's 5s request time-out instead of hanging for ever
 	afterApply func(op string)
 	latMin    time.Duration // lower bound of the request latency (latMin == lat: concrete latency)
 	faultForce bool // inject faults[0] without asking the explorer
@@ -273,6 +274,10 @@ func (k *vpKV) begin(op string) int {
 		}
 	}
 	if f == vpFaultHang {
+		if k.hangIsTimeout {
+			vpDelay(op+".clienttimeout", 5*time.Second, 5*time.Second) // nats.go request time-out
+			return vpFaultErr
+		}
 		vpBlockForever()
 	}
 	vpDelay(op+".req", k.latMin, k.lat)
@@ -455,6 +460,7 @@ func (c *vpCallbacks) install(e Election) {
 }
 
 type vpMetrics struct {
+	yieldOn     bool // every metrics call is a scheduling point (user-provided Metrics are ordinary code)
 	gauge       float64
 	gaugeSet    bool
 	transitions [][2]string
@@ -473,6 +479,9 @@ func (m *vpMetrics) SetIsLeader(value float64, labels prometheus.Labels) {
 func (m *vpMetrics) SetConnectionStatus(value float64, labels prometheus.Labels) { m.connStatus = value }
 func (m *vpMetrics) IncTransitions(labels prometheus.Labels) {
 	m.transitions = append(m.transitions, [2]string{labels["from_state"], labels["to_state"]})
+	if m.yieldOn {
+		vpYield("metrics.transition")
+	}
 }
 func (m *vpMetrics) IncFailures(labels prometheus.Labels)                {}
 func (m *vpMetrics) IncAcquireAttempts(labels prometheus.Labels)         {}
